@@ -402,6 +402,11 @@ pub fn run_behaviour(tr: &Tracer, run: i64, ops: &[Value]) {
     for o in &ops[1..] {
         let mut ev = json!({"e": "Op", "run": run, "op": o["op"], "t": o["t"], "s": geti(o, "s"), "i": geti(o, "i"),
                             "v": geti(o, "v"), "vs": o["vs"], "k": geti(o, "k")});
+        if gets(o, "op") == "Poll" {
+            // a panic inside the poll is data: the event keeps its shape
+            ev["items"] = json!([]);
+            ev["wk"] = json!(-1);
+        }
         tr.begin_call(ev.clone());
         let r = catch(|| cx.exec(o, &mut ev));
         tr.end_call();
